@@ -68,32 +68,40 @@ def PurePlan (P : List Act) : Prop := ∀ a ∈ P, a.pure = true
 
 instance : DecidablePred PurePlan := fun P => by unfold PurePlan; exact inferInstance
 
-/-- the pointer part after one `add` is the pointer part before, transformed by the plan of the link run -/
-theorem phraseAdd1_ptr (h : Heap) (p e : Nat) (pos : Option Int) (P : List Act) (h' : Heap)
-    (hp : plan (preLink h p e pos) p = some P) (pure : PurePlan P) (hr : phraseAdd1 h p e pos = .ok h') :
-    execP h.ptr P = .ok h'.ptr := by
-  unfold phraseAdd1 at hr
-  have hpl : plan (addElement (setParent h e (some p)) p e pos) p = some P := hp
-  simp only [linkR, hpl] at hr
-  have hx := exec_pure (addElement (setParent h e (some p)) p e pos) P pure
-  rw [ptr_addElement, ptr_setParent] at hx
-  cases hq : execP h.ptr P with
-  | error c => rw [hq] at hx; simp only at hx; rw [hx] at hr; simp at hr
-  | ok q =>
-    rw [hq] at hx
-    simp only at hx
-    rw [hx] at hr
-    simp only [R.ok.injEq] at hr
-    subst hr
-    simp
+/-- one `linkProperties` run as an operation, on the pointer part -/
+theorem linkR_ptr (h : Heap) (p : Nat) (P : List Act) (h' : Heap)
+    (hp : plan h p = some P) (pure : PurePlan P) (hr : linkR h p = .ok h') : execP h.ptr P = .ok h'.ptr := by
+  simp only [linkR, hp] at hr
+  cases hloc : planLocal h p P with
+  | false => simp [hloc] at hr
+  | true =>
+    simp only [hloc, Bool.not_true, Bool.false_eq_true, if_false] at hr
+    have hx := exec_pure h P pure
+    cases hq : execP h.ptr P with
+    | error c => rw [hq] at hx; simp only at hx; rw [hx] at hr; simp at hr
+    | ok q =>
+      rw [hq] at hx
+      simp only at hx
+      rw [hx] at hr
+      simp only [R.ok.injEq] at hr
+      subst hr
+      simp
 
-/-- adding the nodes `steps` one after the other to `p`; `Ps` = the plans of the link runs -/
-inductive Trace (p : Nat) : Heap → List (Nat × Option Int) → List (List Act) → Heap → Prop where
-  | nil (h : Heap) : Trace p h [] [] h
-  | cons {h h1 h2 : Heap} {e : Nat} {pos : Option Int} {rest : List (Nat × Option Int)} {P : List Act}
-      {Ps : List (List Act)} :
-      plan (preLink h p e pos) p = some P → phraseAdd1 h p e pos = .ok h1 → Trace p h1 rest Ps h2 →
-      Trace p h ((e, pos) :: rest) (P :: Ps) h2
+/-- a successful link run was local -/
+theorem linkR_local (h : Heap) (p : Nat) (h' : Heap) (hr : linkR h p = .ok h') :
+    ∃ P, plan h p = some P ∧ planLocal h p P = true ∧ exec h P = .ok h' := by
+  unfold linkR at hr
+  cases hp : plan h p with
+  | none => simp [hp] at hr
+  | some P =>
+    simp only [hp] at hr
+    cases hloc : planLocal h p P with
+    | false => simp [hloc] at hr
+    | true =>
+      simp only [hloc, Bool.not_true, Bool.false_eq_true, if_false] at hr
+      cases hx : exec h P with
+      | error c => rw [hx] at hr; simp at hr
+      | ok h2 => rw [hx] at hr; simp only [R.ok.injEq] at hr; subst hr; exact ⟨P, rfl, hloc, hx⟩
 
 /-- successive link runs on the pointer part -/
 def runPlans : Ptr → List (List Act) → Except Crash Ptr
@@ -103,14 +111,53 @@ def runPlans : Ptr → List (List Act) → Except Crash Ptr
     | .error c => .error c
     | .ok q' => runPlans q' Ps
 
-theorem trace_ptr {p : Nat} {h h' : Heap} {steps : List (Nat × Option Int)} {Ps : List (List Act)}
-    (tr : Trace p h steps Ps h') (pure : ∀ P ∈ Ps, PurePlan P) : runPlans h.ptr Ps = .ok h'.ptr := by
-  induction tr with
-  | nil h => rfl
-  | cons hp hr _ ih =>
+/-- `relinkUp fuel h x = .ok h'`, with the plans `Qs` of the link runs of the ancestors of `x` (nearest first) -/
+inductive UpRuns : Nat → Heap → Nat → List (List Act) → Heap → Prop where
+  | top {fuel : Nat} {h : Heap} {x : Nat} : (h.node x).parent = none → UpRuns (fuel + 1) h x [] h
+  | up {fuel : Nat} {h h1 h2 : Heap} {x q : Nat} {P : List Act} {Qs : List (List Act)} :
+      (h.node x).parent = some q → plan h q = some P → linkR h q = .ok h1 → UpRuns fuel h1 q Qs h2 →
+      UpRuns (fuel + 1) h x (P :: Qs) h2
+
+/-- a successful re-linking of the ancestors has such a description -/
+theorem relinkUp_runs (fuel : Nat) (h : Heap) (x : Nat) (h' : Heap) (hr : relinkUp fuel h x = .ok h') :
+    ∃ Qs, UpRuns fuel h x Qs h' := by
+  induction fuel generalizing h x with
+  | zero => simp [relinkUp] at hr
+  | succ f ih =>
+    simp only [relinkUp] at hr
+    cases hpar : (h.node x).parent with
+    | none => rw [hpar] at hr; simp only [R.ok.injEq] at hr; subst hr; exact ⟨[], UpRuns.top hpar⟩
+    | some q =>
+      rw [hpar] at hr
+      simp only at hr
+      cases hl : linkR h q with
+      | crash c => rw [hl] at hr; simp at hr
+      | outside => rw [hl] at hr; simp at hr
+      | ok h1 =>
+        rw [hl] at hr
+        obtain ⟨Qs, u⟩ := ih h1 q hr
+        cases hp : plan h q with
+        | none => simp [linkR, hp] at hl
+        | some P => exact ⟨P :: Qs, UpRuns.up hpar hp hl u⟩
+
+theorem upRuns_ptr {fuel : Nat} {h h' : Heap} {x : Nat} {Qs : List (List Act)} (u : UpRuns fuel h x Qs h')
+    (pure : ∀ Q ∈ Qs, PurePlan Q) : runPlans h.ptr Qs = .ok h'.ptr := by
+  induction u with
+  | top _ => rfl
+  | up _ hp hl _ ih =>
     simp only [runPlans]
-    rw [phraseAdd1_ptr _ _ _ _ _ _ hp (pure _ List.mem_cons_self) hr]
-    exact ih (fun P hP => pure P (List.mem_cons_of_mem _ hP))
+    rw [linkR_ptr _ _ _ _ hp (pure _ List.mem_cons_self) hl]
+    exact ih (fun Q hQ => pure Q (List.mem_cons_of_mem _ hQ))
+
+/-- adding the nodes `steps` one after the other to `p`; `Ps` = the plans of ALL the link runs, in order: for each step
+    the run of `p` itself and then the runs of its ancestors -/
+inductive Trace (p : Nat) : Heap → List (Nat × Option Int) → List (List Act) → Heap → Prop where
+  | nil (h : Heap) : Trace p h [] [] h
+  | cons {h hl hu h2 : Heap} {e : Nat} {pos : Option Int} {rest : List (Nat × Option Int)} {P : List Act}
+      {Qs Ps : List (List Act)} :
+      plan (preLink h p e pos) p = some P → linkR (preLink h p e pos) p = .ok hl →
+      UpRuns (hl.n + 1) hl p Qs hu → Trace p (reorder hu p) rest Ps h2 →
+      Trace p h ((e, pos) :: rest) (P :: Qs ++ Ps) h2
 
 theorem runPlans_append (q : Ptr) (Ps Qs : List (List Act)) :
     runPlans q (Ps ++ Qs) = (match runPlans q Ps with | .error c => .error c | .ok q' => runPlans q' Qs) := by
@@ -121,6 +168,47 @@ theorem runPlans_append (q : Ptr) (Ps Qs : List (List Act)) :
     cases execP q P with
     | error c => rfl
     | ok q' => exact ih q'
+
+theorem trace_ptr {p : Nat} {h h' : Heap} {steps : List (Nat × Option Int)} {Ps : List (List Act)}
+    (tr : Trace p h steps Ps h') (pure : ∀ P ∈ Ps, PurePlan P) : runPlans h.ptr Ps = .ok h'.ptr := by
+  induction tr with
+  | nil h => rfl
+  | @cons h0 hl0 hu0 h20 e pos rest P Qs Ps0 hp hl hu _ ih =>
+    have pureP : PurePlan P := pure _ List.mem_cons_self
+    have pureQ : ∀ Q ∈ Qs, PurePlan Q := fun Q hQ => pure Q (by simp [hQ])
+    have pureR : ∀ Q ∈ Ps0, PurePlan Q := fun Q hQ => pure Q (by simp [hQ])
+    have e1 := linkR_ptr _ _ _ _ hp pureP hl
+    rw [ptr_preLink] at e1
+    have e2 := upRuns_ptr hu pureQ
+    have e3 := ih pureR
+    rw [ptr_reorder] at e3
+    show runPlans h0.ptr ((P :: Qs) ++ Ps0) = _
+    rw [runPlans_append]
+    simp only [runPlans, e1, e2, e3]
+
+/-- a successful `add` of a node has such a description -/
+theorem phraseAdd1_trace (h : Heap) (p e : Nat) (pos : Option Int) (h1 : Heap) (hr : phraseAdd1 h p e pos = .ok h1) :
+    ∃ P Qs hl hu, plan (preLink h p e pos) p = some P ∧ linkR (preLink h p e pos) p = .ok hl ∧
+      UpRuns (hl.n + 1) hl p Qs hu ∧ h1 = reorder hu p := by
+  unfold phraseAdd1 at hr
+  have hpre : addElement (setParent h e (some p)) p e pos = preLink h p e pos := rfl
+  rw [hpre] at hr
+  cases hl : linkR (preLink h p e pos) p with
+  | crash c => rw [hl] at hr; simp at hr
+  | outside => rw [hl] at hr; simp at hr
+  | ok h2 =>
+    rw [hl] at hr
+    simp only at hr
+    cases hu : relinkUp (h2.n + 1) h2 p with
+    | crash c => rw [hu] at hr; simp at hr
+    | outside => rw [hu] at hr; simp at hr
+    | ok h3 =>
+      rw [hu] at hr
+      simp only [R.ok.injEq] at hr
+      obtain ⟨Qs, u⟩ := relinkUp_runs _ _ _ _ hu
+      cases hp : plan (preLink h p e pos) p with
+      | none => simp [linkR, hp] at hl
+      | some P => exact ⟨P, Qs, h2, h3, rfl, rfl, u, hr.symm⟩
 
 /-- the constant writes of successive successful runs, each compiled in the state it actually starts from -/
 def runW (q : Ptr) : List (List Act) → Option (List Wr)
